@@ -620,16 +620,34 @@ def _replace_expr(stmt: ast.AST, field: str, old: ast.AST, new: ast.AST) -> None
 
 
 def splice_tail_helpers(prog: Program, fn: FuncInfo, rounds: int = 2,
-                        exclude: "frozenset[str] | set[str]" = frozenset()) -> tuple[FuncInfo, set[str]]:
+                        exclude: "frozenset[str] | set[str]" = frozenset(),
+                        role_nodes: "tuple[ast.AST, ...] | None" = None) -> tuple[FuncInfo, set[str]]:
     """Analysis view of `fn` in which calls `x = [await] self._helper(...)` / `return self._helper(...)`
     / `self._helper(...)` of private same-class statement helpers (also those that return from several
     if/else arms, which the engine normaliser leaves alone) are replaced by the helper's body:
     parameters substituted (a parameter the helper rebinds becomes a renamed local initialised with
     the argument), own locals renamed, every `return e` turned into `ret__helper = e`.  Single-expression
-    helpers are left to the engine normaliser.  Returns (view, names spliced)."""
+    helpers are left to the engine normaliser.  Returns (view, names spliced).
+
+    What is kept out is the FUNCTION that plays an anchored role (`role_nodes`: the definitions bound by
+    `Anchors`), not everything that happens to carry its name: a private helper of another class that is called
+    like an anchored function of this property (`PVManager._parse_result` next to `BatteryManager._parse_result`)
+    plays no role of its own -- it is part of the routine that calls it and is spliced like any other helper.
+    Without `role_nodes` the names in `exclude` are kept out as before."""
     import copy
 
     from ..engine import normalize as nz
+
+    def kept_out(h: ast.AST) -> bool:
+        name = h.name  # type: ignore[attr-defined]
+        if role_nodes is not None and name in exclude:
+            return any(h is n for n in role_nodes)
+        return name in exclude or name in nz.ANCHOR_NAMES
+
+    def for_engine(h: ast.AST) -> bool:
+        # single-expression helpers are spliced by the engine normaliser -- unless it refuses them by name
+        return nz._simple_helper(h) == "expr" and not (  # type: ignore[arg-type]
+            h.name in nz.ANCHOR_NAMES or h.name in exclude)  # type: ignore[attr-defined]
 
     root = copy.deepcopy(fn.node)
     spliced: set[str] = set()
@@ -653,8 +671,8 @@ def splice_tail_helpers(prog: Program, fn: FuncInfo, rounds: int = 2,
                 found = None
                 for call, parent, awaited in _own_calls(root_expr):
                     h = nz._helper_target(prog, fn, call, {})
-                    if h is None or h is fn.node or h.name in nz.ANCHOR_NAMES or h.name in exclude \
-                            or nz._simple_helper(h) == "expr" \
+                    if h is None or h is fn.node or h.name == fn.name or kept_out(h) \
+                            or for_engine(h) \
                             or isinstance(h, ast.AsyncFunctionDef) != awaited or not all(
                                 isinstance(d, ast.Name) and d.id in ("staticmethod", "override") for d in h.decorator_list):
                         continue
@@ -749,9 +767,12 @@ def analysis_view(prog: Program, fn: FuncInfo) -> FuncInfo:
     per = _VIEWS.setdefault(prog, {})
     key = (fn.qual, id(fn.node))
     if key not in per:
-        keep = anchors(prog).names      # functions that play an anchored role are analysed on their own
-        per[key] = normalize(prog, splice_tail_helpers(prog, fn, exclude=keep)[0], diamonds=False,
-                             exclude_helpers=keep)
+        anc = anchors(prog)
+        keep = anc.names                # functions that play an anchored role are analysed on their own
+        # (whether a function called like a role player -- now or historically -- is kept out is decided by
+        # identity: only the definitions that play the roles are)
+        per[key] = normalize(prog, splice_tail_helpers(prog, fn, exclude=keep | anc.hints, role_nodes=anc.nodes)[0],
+                             diamonds=False, exclude_helpers=keep)
     return per[key]
 
 
@@ -765,6 +786,26 @@ BDA_Q = ("microgrid._power_distributing._distribution_algorithm._battery_distrib
 
 def _self_callers(cls: ClassInfo, name: str) -> list[FuncInfo]:
     return [m for m in cls.methods.values() if m.name != name and name in self_calls(m.node)]
+
+
+def _is_private(name: str) -> bool:
+    return name.startswith("_") and not name.startswith("__")
+
+
+def _reaches(cls: ClassInfo, m: FuncInfo, pred: Callable[[FuncInfo], bool], depth: int = 3) -> bool:
+    """`pred` holds for `m` or for a private method of the class that `m` calls (transitively, to `depth`)."""
+    seen: set[str] = set()
+    todo = [(m, 0)]
+    while todo:
+        cur, d = todo.pop()
+        if cur.name in seen:
+            continue
+        seen.add(cur.name)
+        if pred(cur):
+            return True
+        if d < depth:
+            todo.extend((cls.methods[n], d + 1) for n in self_calls(cur.node) if n in cls.methods and _is_private(n))
+    return False
 
 
 def _has_attr_call(m: FuncInfo, attr: str, no_args: bool = False) -> bool:
@@ -787,7 +828,8 @@ class Anchors:
         bm.dist    calls bm.send and builds the results                   (BatteryManager._distribute_power)
         bm.gpd     calls `self._distribution_algorithm.distribute_power`  (_get_power_distribution)
         bm.gd      calls bm.gpd                                           (_get_distribution)
-        pv.api     issues `set_power` in the PV manager                   (_set_api_power)
+        pv.api     the PV manager's sending routine: the innermost private function that, with the private
+                   helpers it calls, issues `set_power`, reads the outcomes and builds the results (_set_api_power)
         bda.core   the allocation routine building `_Power` cells         (BDA._distribute_power)
         bda.consume / bda.supply   callers of bda.core passing the request as is / negated
         bda.greedy / bda.split     callees of bda.core taking the `_Power` cells with / without a float
@@ -796,10 +838,13 @@ class Anchors:
 
     def __init__(self, prog: Program) -> None:
         self.roles: dict[str, FuncInfo | None] = {}
+        self.hints: set[str] = {"_set_api_power"}     # the historical names of the role players
         bm, pv, bda = prog.cls(BM_Q), prog.cls(PV_Q), prog.cls(BDA_Q)
 
         def pick(role: str, cls: ClassInfo, hint: str, finder: Callable[[], list[FuncInfo]]) -> FuncInfo | None:
             got = cls.methods.get(hint)
+            if hint:
+                self.hints.add(hint)
             if got is None:
                 cands = finder()
                 got = cands[0] if len(cands) == 1 else None
@@ -817,7 +862,30 @@ class Anchors:
                 isinstance(c, ast.Call) and method_call(c, "self._distribution_algorithm", "distribute_power")
                 for c in ast.walk(m.node))])
         pick("bm.gd", bm, "_get_distribution", lambda: _self_callers(bm, gpd.name) if gpd is not None else [])
-        pick("pv.api", pv, "_set_api_power", lambda: [m for m in pv.methods.values() if _has_attr_call(m, "set_power")])
+        def pv_routine() -> list[FuncInfo]:
+            """The PV manager's sending routine is a unit of behaviour: issue the calls, wait, read the outcomes,
+            report.  Any of these steps may live in a private helper of its own (a helper that only sends and hands
+            back the task map, one that only reads the outcomes, one that only builds the result), so the routine is
+            the innermost function that -- together with the private helpers it calls -- does all of it: start at
+            the historical name, else at the one function that issues `set_power`, and walk up through single
+            private callers while the result reading / the result construction is still out of reach."""
+            start = pv.methods.get("_set_api_power")
+            if start is None or not _reaches(pv, start, lambda m: _has_attr_call(m, "set_power")):
+                direct = [m for m in pv.methods.values() if _has_attr_call(m, "set_power")]
+                if len(direct) != 1:
+                    return direct
+                start = direct[0]
+            cur = start
+            for _ in range(4):
+                whole = _reaches(pv, cur, lambda m: _has_attr_call(m, "result", True)) \
+                    and _reaches(pv, cur, lambda m: any(isinstance(c, ast.Call) and is_result_ctor(c) for c in ast.walk(m.node)))
+                callers = _self_callers(pv, cur.name)
+                if whole or len(callers) != 1 or not _is_private(cur.name) or not _is_private(callers[0].name):
+                    break
+                cur = callers[0]
+            return [cur]
+
+        pick("pv.api", pv, "", pv_routine)
         core = pick("bda.core", bda, "_distribute_power", lambda: [
             m for m in bda.methods.values() if any(isinstance(c, ast.Call) and u(c.func) == "_Power" for c in ast.walk(m.node))])
         public = bda.methods.get("distribute_power")
@@ -888,6 +956,8 @@ class Anchors:
 
         pick("bda.bounds", bda, "_inclusion_exclusion_bounds", bounds_fn)
         self.names = frozenset(m.name for m in self.roles.values() if m is not None and m.name.startswith("_"))
+        # the definitions themselves: a function of another class that merely shares a role player's name is no anchor
+        self.nodes: tuple[ast.AST, ...] = tuple(m.node for m in self.roles.values() if m is not None)
 
     def get(self, role: str) -> FuncInfo:
         m = self.roles.get(role)
